@@ -12,6 +12,7 @@ import (
 	"github.com/tidwall/geojson"
 	"github.com/tidwall/geojson/geometry"
 
+	"verif/internal/gen"
 	"verif/internal/mon"
 )
 
@@ -493,6 +494,34 @@ func c17Run(c *mon.Ctx) {
 			c.SetCase(func() interface{} { return cn.Describe() })
 			c.Try(func() { c17Check(c, cn, cn.Build(nil), "", cn.Describe()) })
 		}
+		if i%3 == 0 {
+			// grammar documents: 2-4-D and mixed-dimension positions, null ordinates, foreign members
+			do := gen.DefaultDocOpts()
+			do.MaxDepth = 1 + r.Intn(3)
+			do.LongFirst = false
+			txt := gen.Render(r, gen.GenDoc(r, do, 0), false, false)
+			c.SetCase(func() interface{} { return map[string]interface{}{"text": txt} })
+			c.Try(func() {
+				obj, err := geojson.Parse(txt, nil)
+				if err != nil {
+					return
+				}
+				c.Count("grammar_documents_serialised")
+				j := obj.JSON()
+				c.Eval()
+				if !json.Valid([]byte(j)) || obj.String() != j || string(obj.AppendJSON([]byte("xy"))) != "xy"+j {
+					c.Violation("parsed", "parsed grammar document: serialisations disagree or are not valid JSON", c17Case{Object: truncate(txt, 800), Output: truncate(j, 800)})
+					return
+				}
+				v, err := decodeDoc([]byte(j))
+				if err == nil {
+					err = checkDoc(v)
+				}
+				if err != nil {
+					c.Violation("parsed", "parsed grammar document: "+err.Error(), c17Case{Object: truncate(txt, 800), Output: truncate(j, 800)})
+				}
+			})
+		}
 		if i%6 == 0 && root.Parseable() {
 			txt := root.JSON()
 			// splice foreign members into the top-level object text
@@ -532,7 +561,7 @@ func truncate(s string, n int) string {
 }
 
 func init() {
-	must := []string{"append_first_sequences", "appends_into_spare_capacity", "nonfinite_ordinates", "features_with_member_text", "pointz", "kind_Circle", "parsed_with_members"}
+	must := []string{"grammar_documents_serialised", "append_first_sequences", "appends_into_spare_capacity", "nonfinite_ordinates", "features_with_member_text", "pointz", "kind_Circle", "parsed_with_members"}
 	for _, k := range allKinds {
 		must = append(must, "kind_"+k)
 	}
